@@ -149,12 +149,79 @@ fn gen_graph(rng: &mut Rng) -> String {
     format!("C17.graph {} {}", rng.below(2), proto::geom(&g))
 }
 
+/// An areal geometry that gets a boundary node only through self-noding — a hole that touches the
+/// middle of a shell segment at a hole vertex which is not the hole's start, or two members of a
+/// MultiPolygon / collection touching vertex-on-edge-interior — and a line that crosses a segment of
+/// it properly exactly at that touch point (or just beside it).
+fn touch_pair(rng: &mut Rng) -> (Geometry<f64>, Geometry<f64>) {
+    let s = 2 * rng.range(4, 8); // shell side
+    let t = rng.range(2, s - 2); // touch abscissa on the bottom edge
+    let sym = rng.below(8);
+    let (ox, oy) = (rng.range(-3, 3), rng.range(-3, 3));
+    let tr = |x: i64, y: i64| -> Coord<f64> {
+        let (x, y) = if sym & 1 == 1 { (s - x, y) } else { (x, y) };
+        let (x, y) = if sym & 2 == 2 { (x, s - y) } else { (x, y) };
+        let (x, y) = if sym & 4 == 4 { (y, x) } else { (x, y) };
+        c(x + ox, y + oy)
+    };
+    let ring = |v: &[(i64, i64)], start: usize| -> LineString<f64> {
+        let n = v.len();
+        let mut cs: Vec<Coord<f64>> = (0..n).map(|i| { let (x, y) = v[(start + i) % n]; tr(x, y) }).collect();
+        cs.push(cs[0]);
+        LineString(cs)
+    };
+    let shell = [(0, 0), (s, 0), (s, s), (0, s)];
+    let h = rng.range(2, s - 2);
+    let w = rng.range(1, t.min(s - t) - 1).max(1);
+    let areal = match rng.below(4) {
+        0 | 1 => {
+            // hole touching the bottom shell edge at (t, 0); the hole starts at another vertex
+            let hole = [(t, 0), (t + w, h), (t - w, h)];
+            Geometry::Polygon(Polygon::new(ring(&shell, rng.below(4) as usize), vec![ring(&hole, rng.range(1, 2) as usize)]))
+        }
+        2 => {
+            // a second member below the shell, its apex on the bottom edge
+            let tri = [(t, 0), (t - w, -h), (t + w, -h)];
+            Geometry::MultiPolygon(MultiPolygon(vec![
+                Polygon::new(ring(&shell, rng.below(4) as usize), vec![]),
+                Polygon::new(ring(&tri, rng.range(1, 2) as usize), vec![]),
+            ]))
+        }
+        _ => {
+            let tri = [(t, 0), (t - w, -h), (t + w, -h)];
+            let mut v = vec![
+                Geometry::Polygon(Polygon::new(ring(&shell, rng.below(4) as usize), vec![])),
+                Geometry::Polygon(Polygon::new(ring(&tri, rng.range(1, 2) as usize), vec![])),
+            ];
+            if rng.chance(1, 2) { v.reverse(); }
+            Geometry::GeometryCollection(GeometryCollection(v))
+        }
+    };
+    // the crossing line: through the touch point (mostly), vertical or slanted, short or long
+    let (dx, dy) = *rng.pick(&[(0i64, 1i64), (0, 2), (1, 1), (-1, 1), (1, 2), (-1, 2), (0, 3)]);
+    let off = if rng.chance(1, 5) { *rng.pick(&[-1i64, 1]) } else { 0 };
+    let (a, b) = ((t + off - dx, -dy), (t + off + dx, dy));
+    let line = match rng.below(4) {
+        0 => Geometry::Line(Line::new(tr(a.0, a.1), tr(b.0, b.1))),
+        1 => Geometry::MultiLineString(MultiLineString(vec![LineString(vec![tr(b.0, b.1), tr(a.0, a.1)])])),
+        2 => Geometry::LineString(LineString(vec![tr(a.0 - 1, a.1), tr(a.0, a.1), tr(b.0, b.1)])),
+        _ => Geometry::LineString(LineString(vec![tr(a.0, a.1), tr(b.0, b.1)])),
+    };
+    (areal, line)
+}
+
 fn gen_hist(rng: &mut Rng) -> String {
     let k = *rng.pick(&[3i64, 4, 4, 6]);
     let n = rng.range(2, 3) as usize;
     let mut return_poly: Option<Vec<Coord<f64>>> = None;
+    let touch = if rng.chance(1, 12) { Some(touch_pair(rng)) } else { None };
     let gs: Vec<Geometry<f64>> = (0..n)
-        .map(|_| {
+        .map(|i| {
+            if let Some((areal, line)) = &touch {
+                if i < 2 {
+                    return if i == 0 { areal.clone() } else { line.clone() };
+                }
+            }
             if rng.chance(1, 25) {
                 // a polygon with many boundary segments and decimal (non-dyadic) coordinates; its partners are points
                 // within an ulp of a slanted edge (`a + t (b − a)` in f64), isolated nodes of the partner's graph
